@@ -1,0 +1,14 @@
+//go:build verif
+// +build verif
+
+package loader
+
+// VerifFuncnameTab runs makeFuncnameTab on functions with the given names and returns the name table and the name
+// offsets handed to the runtime (moduledata.funcnametab, _func.nameOff). Verification hook, build tag verif.
+func VerifFuncnameTab(names []string) (tab []byte, offs []int32) {
+	funcs := make([]Func, len(names))
+	for i, n := range names {
+		funcs[i].Name = n
+	}
+	return makeFuncnameTab(funcs)
+}
